@@ -13,6 +13,7 @@ import Ogen.HandlerStages_proof
 import Ogen.Exchange_proof
 import Ogen.RefCache_proof
 import Ogen.CliStages_proof
+import Ogen.RegexSemantics_proof
 
 /-! Line-protocol driver over all executable models: `<model> <payload>` per line, one
     canonical output line per input line. Core-only (no Mathlib) so it links natively. -/
@@ -55,6 +56,7 @@ def dispatch (line : String) : String :=
     | "rsel" => Exchange.rselLine payload
     | "refs" => RefChain.refsLine payload
     | "cli" => Cli.cliLine payload
+    | "rematch" => ReSem.rematchLine payload
     | "jeq" => JEqDrv.runLine payload
     | "enum" => JEqDrv.enumLine payload
     | _ => "bad-model"
